@@ -55,7 +55,9 @@ def dimension_forms(rng):
                 {'size': '(K+1)+(K_2+1)', 'size2': '2'}, {'size': '2', 'size2': '(K)-(1)'}, {'size': '(K)*(2)+(1)', 'size2': '(K_2)'},
                 {'size': '-(K)+(7)', 'size2': '(2)+(1)'},
                 {'isVariableSize': 'false', 'size': '3'}, {'isVariableSize': '0', 'size': '3'}, {'isVariableSize': 'False', 'size': '4'},
-                {'isVariableSize': 'yes', 'size': '4'}):
+                {'isVariableSize': ' TRUE ', 'size': '4'}, {'isVariableSize': '1'}, {'isVariableSize': ' 0', 'size': '2'},
+                # neither true nor false: refused (D201)
+                {'isVariableSize': 'yes', 'size': '4'}, {'isVariableSize': '', 'size': '4'}, {'isVariableSize': 'no', 'size': '4'}, {'isVariableSize': '00'}):
         forms.append((dim, dim, False))
     forms.append(({'size': '2'}, {'size': '2'}, True))
     return name, typ, forms
@@ -139,7 +141,15 @@ def run_c17(tier):
                     tag = 'message' if message else 'struct'
                     tail = '<member name="tail" type="u16"/>' if trailing else ''
                     xml = '<x><%s name="T"><member name="cnt" type="u32"/>%s%s</%s></x>' % (tag, member_xml(name, typ, dim_xml or None, optional), tail, tag)
-                    nodes = IsarParser().parse(xml, '', None)
+                    try:
+                        nodes = IsarParser().parse(xml, '', None)
+                    except M.ModelError as ex:         # a designed refusal (IsarError): the model refuses the same descriptions
+                        rows.append(({'xml': xml}, 'refused:' + str(ex)[:80]))
+                        req = {'op': 'isar_members', 'name': name, 'type': typ, 'optional': optional, 'message': message, 'dim': dim_req}
+                        reqs.append(req)
+                        chk.count(('form', xml), True)
+                        chk.bump('isar-form refused')
+                        continue
                     impl = [pm_of_member(m) for m in (nodes[0].members[1:-1] if trailing else nodes[0].members[1:])]
                     # a member description denotes one layout, wherever the member stands in its struct / message
                     seen = position_free.setdefault((xml.replace(tail, '') if tail else xml), (impl, xml))
@@ -212,7 +222,10 @@ def run_c17(tier):
         ans = client.batch(reqs)
         for (casej, impl), m in zip(rows + prow, ans):
             chk.corr_compared += 1
-            if isinstance(impl, str):
+            if isinstance(impl, str) and impl.startswith('refused:'):
+                if 'error' not in m:
+                    chk.correspondence_mismatch('Patch.readFlag refuses what isar.flag refuses', casej, impl, m)
+            elif isinstance(impl, str):
                 if 'error' not in m:
                     chk.correspondence_mismatch('Patch.applyAll = patch.patch()', casej, impl, m)
                 elif impl not in ('error:PatchError',):
